@@ -267,6 +267,34 @@ func §gen() ITER[int] GEN[int]{
 	RETNIL
 }GEN
 `+StdEntry, "deleg:in-for-post", "shadow"),
+		Raw("deleg-partial-redeclaration-behind-delegation-in-a-case-clause", `
+func §count(from, n int) ITER[int] GEN[int]{
+	for i := 0; i < n; i++ {
+		YIELD(from + i)
+	}
+	RETNIL
+}GEN
+func §gen() ITER[int] GEN[int]{
+	for mode := 0; mode < 2; mode++ {
+		switch mode {
+		case 0:
+			base := 1000
+			label := func() int { base++; return tr.R(1, base) }
+			YFROM(§count(label(), 2))
+			base, step := base+1000, 1
+			YFROM(§count(label()+step, 1))
+		default:
+			base := 5000
+			pb := &base
+			YFROM(§count(*pb, 1))
+			base, step := base+100, 2
+			*pb += step
+			YFROM(§count(base, 2))
+		}
+	}
+	RETNIL
+}GEN
+`+StdEntry, "deleg:in-switch", "partial-redeclaration"),
 		Raw("deleg-alias-typed-delegates", `
 type §ints = ITER[int]
 
